@@ -334,7 +334,7 @@ def g_ellipsoid(tier):
   obs.append(R.obligation("ray_ellipsoid#hit.selected_root_solves_the_quadratic", root_r, extra_assume=[T(apos)], meta={"goal": "the selected root solves the quadratic", "timeout_ms": 30000}))
   id_r = f"{E('r_e')} == {poly('r_e')}"
   obs.append(pure("ray_ellipsoid#identity.at_selected_root", id_r, "the identity at the selected root"))
-  obs.append(Obligation("ray_ellipsoid#hit_on_surface", [T("result[0] == r_e"), T(root_r), T(id_r)], T(f"implies({pre} and result[0] >= 0.0, {E('result[0]')} == 0.0)"), func=key, kind="post", meta={"function": key, "source_hash": R.info.source_hash, "goal": "a reported hit lies on the ellipsoid", "timeout_ms": 30000}))
+  obs.append(Obligation("ray_ellipsoid#hit_on_surface", [T("result[0] == r_e"), T(root_r), T(id_r)], T(f"implies({pre} and result[0] >= 0.0, {E('result[0]')} == 0.0)"), func=key, kind="post", meta={"function": key, "source_hash": R.info.source_hash, "goal": "a reported hit lies on the ellipsoid", "timeout_ms": 30000, "raw_first": True, "sat_hints": _pinned_rays(T, ["size[0] == 1.0", "size[1] == 2.0", "size[2] == 3.0"]), "replay": _local_replay(R, "ray_ellipsoid", y, "implies(" + a3 + " > 0.0 and result[0] >= 0.0, (" + " + ".join(f"(lp[{i}] + result[0]*lv[{i}])*(lp[{i}] + result[0]*lv[{i}])/(size[{i}]*size[{i}])" for i in range(3)) + " - 1.0) == 0.0)", ["size[0] > 0.0", "size[1] > 0.0", "size[2] > 0.0"])}))
   # nearest
   A, B, C, U, W_, Y = z3.Reals("A B C U V Y")
   lem = z3.Implies(z3.And(A > 0, A * (U + W_) == -2 * B, A * U * W_ == C, A * Y * Y + 2 * B * Y + C == 0), z3.Or(Y == U, Y == W_))
@@ -343,8 +343,49 @@ def g_ellipsoid(tier):
   hyp = f"{pre} and y >= 0.0 and {E('y')} == 0.0 and b_e*b_e - a_e*c_e >= {MINVAL}"
   is_root = f"implies({hyp}, y == x_e[0] or y == x_e[1])"
   obs.append(R.obligation("ray_ellipsoid#nearest.point_is_a_root", is_root, extra_assume=[T(ident), T(apos), inst], meta={"goal": "a point of the ray on the ellipsoid is one of the two roots", "timeout_ms": 60000}))
-  obs.append(R.obligation("ray_ellipsoid#nearest", f"implies({hyp}, result[0] >= 0.0 and result[0] <= y)", extra_assume=[T(is_root), T(apos), T("result[0] == r_e")], meta={"goal": "every point of the ray (y >= 0) on the ellipsoid is a hit and the reported distance is not beyond it", "timeout_ms": 30000}))
+  En = lambda t: "(" + " + ".join(f"(lp[{i}] + {t}*lv[{i}])*(lp[{i}] + {t}*lv[{i}])/(size[{i}]*size[{i}])" for i in range(3)) + " - 1.0)"
+  req = ["size[0] > 0.0", "size[1] > 0.0", "size[2] > 0.0"]
+  search = _pinned_rays(T, ["size[0] == 1.0", "size[1] == 2.0", "size[2] == 3.0"])
+  obs.append(R.obligation("ray_ellipsoid#nearest", f"implies({hyp}, result[0] >= 0.0 and result[0] <= y)", extra_assume=[T(is_root), T(apos), T("result[0] == r_e")], meta={"goal": "every point of the ray (y >= 0) on the ellipsoid is a hit and the reported distance is not beyond it", "timeout_ms": 30000, "sat_hints": [h + [y == v] for h in search for v in (1, 2, 4)], "replay": _local_replay(R, "ray_ellipsoid", y, f"implies({a3} > 0.0 and y >= 0.0 and {En('y')} == 0.0, result[0] >= 0.0 and result[0] <= y)", req)}))
   return obs
+
+
+def _pinned_rays(T, sizes):
+  """where a counter-model is looked for first when a proof fails (a model of query + hint is a model of the query):
+  rays along / oblique to the axis, starting inside and outside"""
+  starts = [("0.0", "0.0", "0.0"), ("0.0", "0.0", "5.0"), ("0.5", "0.0", "0.0"), ("0.0", "0.0", "-5.0"), ("3.0", "0.0", "0.0")]
+  dirs = [("0.0", "0.0", "1.0"), ("0.0", "0.0", "-1.0"), ("1.0", "0.0", "1.0"), ("-1.0", "0.0", "0.0")]
+  return [[T(f"lp[{i}] == {p[i]}") for i in range(3)] + [T(f"lv[{i}] == {d[i]}") for i in range(3)] + [T(z) for z in sizes] for p in starts for d in dirs]
+
+
+def _local_replay(R, func, yv, clause, requires):
+  """replay of a counter-model on the real function with the local ray itself (pos = 0, mat = identity)"""
+  import json
+  import os
+
+  from wpv.contracts import _num
+  from wpv.sym import lift
+
+  text = clause.replace("lp[", "pnt[").replace("lv[", "vec[").replace("bound >= 0.0 and ", "")
+
+  def run(model, ob):
+    if model is None:
+      return {"reproduced": None, "note": "no model object"}
+    from wpv import replay as rp
+
+    val = lambda t: _num(model, lift(t, "float"))
+    params = [["pos", "vec3", [0.0, 0.0, 0.0]], ["mat", "mat33", [1.0, 0, 0, 0, 1.0, 0, 0, 0, 1.0]], ["size", "vec3", [val(c) for c in R.params["size"].comps]], ["pnt", "vec3", [val(c) for c in R.qvars["lp"].comps]], ["vec", "vec3", [val(c) for c in R.qvars["lv"].comps]]]
+    here = os.path.dirname(os.path.dirname(os.path.abspath(__file__)))
+    os.makedirs(os.path.join(here, "replay"), exist_ok=True)
+    safe = "".join(ch if ch.isalnum() or ch in "._-" else "_" for ch in ob.oid)[:100]
+    path = os.path.join("replay", f"func_{safe}.input.json")
+    with open(os.path.join(here, path), "w") as f:
+      json.dump({"module": "ray", "func": func, "params": params, "ret": ["float", "vec3"], "requires": requires, "clause": text, "extra": {"y": val(yv)}}, f, indent=1)
+    cmd = ["VENV_PYTHON", "scenarios/replay_func.py", path]
+    rc, out = rp.run_native(cmd)
+    return {"native_cmd": cmd, "exit": rc, "reproduced": rc == 1, "meaning": f"exit 1: the real {func} violates the clause on the ray of the counter-model (local frame = world frame); 0: it does not; 2: not executable", "output": out[-2000:]}
+
+  return run
 
 
 def g_cylinder(tier):
@@ -408,13 +449,16 @@ def g_cylinder(tier):
   st = f"implies({pre} and r_s >= 0.0 and abs({pt('r_s')[2]}) <= size[1], {side('r_s')})"
   obs.append(Obligation("ray_cylinder#hit.candidate_on_surface.2", [T(f"implies({pre}, {root})"), T(idr)], T(st), func=key, kind="post", meta={"function": key, "source_hash": R.info.source_hash, "goal": "an accepted side root lies on the round side between the faces", "timeout_ms": 30000}))
   per.append(T(st))
-  obs.append(Obligation("ray_cylinder#hit_on_surface", [T(s1)] + per, T(f"implies({pre} and {X} >= 0.0, {surf})"), func=key, kind="post", meta={"function": key, "source_hash": R.info.source_hash, "goal": "a reported hit lies on a flat face within the radius or on the round side between the faces", "timeout_ms": 60000, "raw_first": True}))
+  search = _pinned_rays(T, ["size[0] == 1.0", "size[1] == 2.0", "bound == 1.0"])
+  req = ["size[0] > 0.0", "size[1] >= 0.0"]
+  obs.append(Obligation("ray_cylinder#hit_on_surface", [T(s1)] + per, T(f"implies({pre} and {X} >= 0.0, {surf})"), func=key, kind="post", meta={"function": key, "source_hash": R.info.source_hash, "goal": "a reported hit lies on a flat face within the radius or on the round side between the faces", "timeout_ms": 60000, "raw_first": True, "sat_hints": search, "replay": _local_replay(R, "ray_cylinder", y, f"implies({X} >= 0.0, {surf})", req)}))
   # completeness for the faces
   for nm, sgn, t in (("top", "", ft), ("bottom", "-", fb)):
     hyp = f"{pre} and abs(lv[2]) > {MINVAL} and y >= 0.0 and {flat('y', sgn)}"
     same = f"implies({hyp}, y == {t})"
     obs.append(R.obligation(f"ray_cylinder#{nm}_face.point_is_the_face_solution", same, meta={"goal": f"a point of the ray on the {nm} face plane is at the face solution", "timeout_ms": 30000}))
-    obs.append(R.obligation(f"ray_cylinder#{nm}_face.nearest", f"implies({hyp}, {X} >= 0.0 and {X} <= y)", extra_assume=[T(same)], meta={"goal": f"every point of the ray (y >= 0) on the {nm} face within the radius is a hit, and the reported distance is not beyond it", "timeout_ms": 60000}))
+    nat = f"implies(abs(lv[2]) > {MINVAL} and y >= 0.0 and {flat('y', sgn)}, {X} >= 0.0 and {X} <= y)"
+    obs.append(R.obligation(f"ray_cylinder#{nm}_face.nearest", f"implies({hyp}, {X} >= 0.0 and {X} <= y)", extra_assume=[T(same)], meta={"goal": f"every point of the ray (y >= 0) on the {nm} face within the radius is a hit, and the reported distance is not beyond it", "timeout_ms": 60000, "sat_hints": [h + [y == v] for h in _pinned_rays(T, ["size[0] == 1.0", "size[1] == 2.0", "bound == 1.0"]) for v in (2, 3, 7)], "replay": _local_replay(R, "ray_cylinder", y, nat, ["size[0] > 0.0", "size[1] >= 0.0"])}))
   return obs
 
 
